@@ -32,7 +32,7 @@ def main():
     ]
     if c.setup():
         for label, kw in configs(c.tier):
-            c.run(label, 'rsym.hn', 'Soundness', kw, required_witnesses=('an Option field',), time_cap=200 if c.tier == 'quick' else 900)
+            c.run(label, 'rsym.hn', 'Soundness', kw, required_witnesses=('an Option field',), time_cap=600 if c.tier == 'quick' else 900)
     c.finish(bounds={'skeletons': [l for l, _ in configs(c.tier)]}, outside=['names outside the pools', 'documents outside the skeletons', 'bytes -> events'],
              trusted=['rsym + models', 'z3', 'output reader', 'tools/replay'],
              technique='symbolic execution of parser + renderer; soundness oracle over every occurrence of the symbolic documents, evaluated on the rendered output and decided by z3 per path')
